@@ -3,6 +3,6 @@ CONSTANTS
   NT = 3
   ForceMapAll = FALSE
   SizeLimit = 0
-  TieFix = FALSE
+  TieFix = TRUE
 INVARIANTS WellFormedOutput BestTarget RespectsLimit ChoiceIsFunctionOfInput
 CHECK_DEADLOCK TRUE
